@@ -599,6 +599,11 @@ func (b *Blob) SliceOp(g *G, lo, hi *Int) Value {
 	if hi != nil && hi.T == nil && hi.C == 0 && loZero {
 		return &Blob{bk: b.bk, bgen: b.bgen}
 	}
+	// raw[1:len(raw)-1] of a single JSON string: the escaped text between the quotes
+	if len(b.Segs) == 1 && b.Segs[0].D != nil && b.Segs[0].D.K == DStr && lo != nil && lo.T == nil && lo.C == 1 && hi != nil &&
+		termEq(hi.Term(64), BVBin("bvsub", n.Term(64), BVConst(1, 64))) {
+		return blobFromTerms(g.jsonEscapedBytes(b.Segs[0].D.S))
+	}
 	g.inconclusive("slicing an abstract blob")
 	return nil
 }
@@ -655,4 +660,39 @@ func (b *Blob) hasSymBytes() bool {
 		}
 	}
 	return false
+}
+
+// jsonEscapedBytes renders the content of a JSON string literal (without the
+// quotes) as encoding/json writes it, forking on the escape class of each
+// symbolic byte (plain, short escape, \u00XX).
+func (g *G) jsonEscapedBytes(s Str) []*Term {
+	bs, ok := s.Bytes()
+	if !ok {
+		g.inconclusive("JSON escaping of an opaque string")
+	}
+	hex := func(n *Term) *Term { // n: 4-bit value in 8 bits
+		return Ite(BVCmp("bvult", n, BVConst(10, 8)), BVBin("bvadd", n, BVConst('0', 8)), BVBin("bvadd", n, BVConst('a'-10, 8)))
+	}
+	var out []*Term
+	lit := func(str string) {
+		for i := 0; i < len(str); i++ {
+			out = append(out, BVConst(uint64(str[i]), 8))
+		}
+	}
+	for _, b := range bs {
+		eq := func(c byte) *Term { return Eq(b, BVConst(uint64(c), 8)) }
+		short := Or(eq('"'), Or(eq('\\'), Or(eq('\n'), Or(eq('\r'), eq('\t')))))
+		long := And(Not(short), Or(BVCmp("bvult", b, BVConst(0x20, 8)), Or(eq('<'), Or(eq('>'), eq('&')))))
+		switch {
+		case g.branch(mkBool(short)):
+			lit("\\")
+			out = append(out, Ite(eq('"'), BVConst('"', 8), Ite(eq('\\'), BVConst('\\', 8), Ite(eq('\n'), BVConst('n', 8), Ite(eq('\r'), BVConst('r', 8), BVConst('t', 8))))))
+		case g.branch(mkBool(long)):
+			lit("\\u00")
+			out = append(out, hex(BVBin("bvlshr", b, BVConst(4, 8))), hex(BVBin("bvand", b, BVConst(15, 8))))
+		default:
+			out = append(out, b)
+		}
+	}
+	return out
 }
